@@ -76,6 +76,7 @@ func (c *conn) sendHandle(msg pmpx.Message) status.Status {
 	case pmpx.Code_ChannelClose:
 		// Remove and free channel
 		id := msg.ChannelClose().Id()
+		verifYield("send.beforeDelete")
 
 		ch, ok := c.channels.Delete(id)
 		if ok {
